@@ -54,7 +54,10 @@ def h_blocks(ctx, cfg):
   size = ctx.split("size", 1, cfg["S"])
   n = L.__index__()
   items = ctx.elems("e", n)
-  pad = ctx.elem("pad")
+  pad = {"elem": lambda: ctx.elem("pad"), "None": lambda: None, "zero": lambda: 0, "str": lambda: "pad",
+         "false": lambda: False, "emptylist": lambda: []}[cfg.get("pad", "elem")]()
+  if cfg.get("hetero") and n >= 2:
+    items = list(items); items[0] = None; items[-1] = ("tuple", 1.5)       # heterogeneous data incl. None
   via = cfg["via"]
   if cfg["hop"] == "none":
     hop, hop_eff = None, size
@@ -64,7 +67,7 @@ def h_blocks(ctx, cfg):
   if via == "func":
     gen = blocks(iter(items), size=size, padval=pad, **kw)
   elif via == "positional":
-    gen = blocks(list(items), size, hop, pad)
+    gen = blocks(list(items), size, hop, pad) if hop is not None else blocks(list(items), size, None, pad)
   else:
     gen = Stream(items).blocks(size=size, padval=pad, **kw)
   got = [list(b) for b in gen]
@@ -118,6 +121,9 @@ def tasks(tier, seed):
     T.append(("h_blocks", {"via": via, "hop": "int", "L": L, "S": S, "H": H}))
     if via != "positional":
       T.append(("h_blocks", {"via": via, "hop": "none", "L": L, "S": S, "H": H}))
+  for pad in ("None", "zero", "str", "false", "emptylist"):
+    for via in ("func", "stream", "positional"):
+      T.append(("h_blocks", {"via": via, "hop": "int", "L": L - 2, "S": S - 1, "H": H - 2, "pad": pad, "hetero": pad == "None"}))
   T.append(("h_blocks_lazy_snapshot", {"L": L, "S": S, "H": H}))
   for kw in (True, False):
     T.append(("h_zero_pad", {"L": 5 if big else 4, "P": 4 if big else 3, "kw": kw}))
